@@ -73,6 +73,8 @@ def cases(tier, seed):
             out.append({"name": "fault.sweep/%s/%s" % (site, direction), "kind": "sweep", "site": site, "dir": direction, "cap": cap})
     out.append({"name": "fault.sweep-worker/poll_fn", "kind": "wsweep", "cap": None})
     out.append({"name": "fault.blocked-submit/count_fn", "kind": "blockedcount"})
+    for seq in ("0,2,raise", "1,3,raise", "0,0,2,raise", "2,raise,raise"):
+        out.append({"name": "fault.count-sequence/%s" % seq, "kind": "countseq", "seq": seq})
     for first in ("fail", "complete"):
         out.append({"name": "fault.depth2/retry/%s" % first, "kind": "depth2", "first": first, "budget": 150 if tier == "quick" else 3000})
     for layers in (["retry"], ["throttle"], ["retry", "map"], ["poll"], ["timeout"]):
@@ -669,6 +671,51 @@ def run_blockedcount(case, res):
             end(ctx)
 
 
+def run_countseq(case, res):
+    """The count callable has changed its answer since construction (e.g. opened a paused executor) and then starts to
+    raise: the fault is logged, the executor goes on with the last answer it got and serves what is submitted."""
+    begin("vt")
+    ctx = Ctx()
+    try:
+        tap()
+        ME = instr.ME
+        seq = case["seq"].split(",")
+        state = {"n": 0}
+
+        def count():
+            i = state["n"]
+            state["n"] += 1
+            tok = seq[min(i, len(seq) - 1)]
+            if tok == "raise":
+                raise Fault("count_fn#%d" % i)
+            return int(tok)
+        me = ManualExecutor("me", auto=run_inline)
+        ctx.own(me)
+        ex = ctx.own(ME.Executors.with_throttle(me, count))
+        last_good = [int(t) for t in seq if t != "raise"][-1]
+        futs = []
+        # let the executor observe every value of the sequence before the callable starts raising
+        for _ in range(len(seq) + 1):
+            instr.advance(31.0)
+        for i in range(3):
+            futs.append(ex.submit(lambda i=i: i))
+            instr.advance(31.0)
+        instr.advance(65.0)
+        res.execs += 1
+        check_common(res)
+        raised = state["n"] > len(seq) - 1
+        if not raised:
+            res.inconclusive.append("%s: the count callable was called %d times, it never raised" % (case["name"], state["n"]))
+        stuck = [i for i, f in enumerate(futs) if not f.done()]
+        if stuck and last_good > 0:
+            res.violation("executor-stalled-after-fault/count_fn", "%s: the count callable answered %s and raises since; the last answer was %d, "
+                          "yet submissions %s are never served" % (case["name"], seq, last_good, stuck))
+        res.key("countseq", case["seq"])
+        res.sample({"count_answers": seq, "calls": state["n"], "served": [f.done() for f in futs]}, limit=1)
+    finally:
+        end(ctx)
+
+
 def run_late(case, res):
     """The user cancels a combinator's output, then an input finishes / fails: nothing may be raised or logged."""
     F = instr.ME.futures
@@ -817,6 +864,8 @@ class QScenario(object):
 
 def run_case(case, res):
     harness.JUDGE_CALLBACK_ESCAPES[0] = True
+    if case["kind"] == "countseq":
+        return run_countseq(case, res)
     if case["kind"] == "irace":
         return run_irace(case, res)
     if case["kind"] == "iqueue":
